@@ -24,10 +24,35 @@ def gen_planets(seed, shard, n):
     from pymeeus.Sun import Sun
     from pymeeus.Coordinates import true_obliquity
     rng = random.Random("geo/%s/%s" % (seed, shard))
+    # planets within about a degree of the Sun AT a March equinox (Sun at longitude 0): a tenth of a day before or after
+    # the equinox the two bodies lie on opposite sides of longitude 0 / 360 (a seeded 250-year window per planet and shard)
+    specials = {}
+    for pl in ("Mercury", "Venus", "Mars"):
+        c = _cls(pl)
+        y0 = rng.randrange(-1000, 2750)
+        ts = []
+        for yy in range(y0, y0 + 250):
+            try:
+                teq = Sun.get_equinox_solstice(yy, "spring").jde()
+                if float(c.geocentric_position(Epoch(teq))[2]) < 1.5:
+                    ts += [teq - 0.1, teq + 0.1, teq - 0.4, teq + 0.4]
+            except Exception:
+                pass
+        specials[pl] = ts
     for i in range(n):
         pl = PLANETS[(i + shard) % len(PLANETS)]
         c = _cls(pl)
         t = rng.uniform(J_M2000 + 10, J_4000 - 10)
+        if i % 4 == 3:
+            # the extremes of the elongation: at (within a day of) the library's own conjunctions and oppositions near t,
+            # in particular conjunctions that straddle ecliptic longitude 0 / 360
+            names = [f for f in ("conjunction", "opposition", "inferior_conjunction", "superior_conjunction") if hasattr(c, f)]
+            try:
+                t = getattr(c, rng.choice(names))(Epoch(t)).jde() + rng.uniform(-1.0, 1.0)
+            except Exception:
+                pass
+        if i % 8 == 5 and specials.get(pl):
+            t = specials[pl].pop()
         ep = Epoch(t)
         jb = ep.jde()
         ra, dec, elong = c.geocentric_position(ep)
@@ -135,6 +160,15 @@ def gen_minor(seed, shard, n):
         inc, node, argp = rng.uniform(0, 180), rng.uniform(0, 360), rng.uniform(0, 360)
         T = 2451545.0 + rng.uniform(-20000, 20000)
         t = T + rng.uniform(-50, 50) * 365.25 * rng.choice([1.0, 0.1, 0.01])
+        if cnt % 8 == 5:
+            # a close approach: a low-inclination orbit whose perihelion (q about 1 AU) points at the Earth's place at t = T
+            from pymeeus.Earth import Earth
+            e = rng.choice([0.0, 0.1, 0.4, 0.985, 1.0])
+            t = T + rng.uniform(-2.0, 2.0)
+            le = float(Earth.geometric_heliocentric_position_j2000(Epoch(T))[0])
+            q = 1.0 + rng.choice([1, -1]) * rng.uniform(0.02, 0.12)
+            inc, node = rng.uniform(0.5, 8.0), rng.uniform(0, 360)
+            argp = (le - node + rng.uniform(-4.0, 4.0)) % 360.0
         if e < 1.0 and q / (1.0 - e) > 2000.0:
             continue
         try:
